@@ -190,7 +190,28 @@ void mcount_arch_get_retval(struct mcount_arg_context *ctx, struct uftrace_arg_s
 		asm volatile("movsd %%xmm0, %0\n" : "=m"(ctx->val.v));
 }
 
-void mcount_save_arch_context(struct mcount_arch_context *ctx)
+/*
+ * libc code reached from the hooks may end with vzeroupper, which clears the
+ * upper half of every ymm register: when the CPU and the OS have the ymm state
+ * enabled, keep the whole 256-bit argument/return registers.
+ */
+static int mcount_arch_have_avx = -1;
+
+static int mcount_arch_check_avx(void)
+{
+	unsigned int eax, ebx, ecx, edx;
+
+	asm volatile("cpuid" : "=a"(eax), "=b"(ebx), "=c"(ecx), "=d"(edx) : "a"(1), "c"(0));
+	/* OSXSAVE and AVX */
+	if ((ecx & (1U << 27)) == 0 || (ecx & (1U << 28)) == 0)
+		return 0;
+
+	asm volatile("xgetbv" : "=a"(eax), "=d"(edx) : "c"(0));
+	/* xmm and ymm state enabled in XCR0 */
+	return (eax & 6) == 6;
+}
+
+static void mcount_save_arch_context_sse(struct mcount_arch_context *ctx)
 {
 	asm volatile("movdqu %%xmm0, %0\n" : "=m"(ctx->xmm[0]));
 	asm volatile("movdqu %%xmm1, %0\n" : "=m"(ctx->xmm[1]));
@@ -202,7 +223,7 @@ void mcount_save_arch_context(struct mcount_arch_context *ctx)
 	asm volatile("movdqu %%xmm7, %0\n" : "=m"(ctx->xmm[7]));
 }
 
-void mcount_restore_arch_context(struct mcount_arch_context *ctx)
+static void mcount_restore_arch_context_sse(struct mcount_arch_context *ctx)
 {
 	asm volatile("movdqu %0, %%xmm0\n" ::"m"(ctx->xmm[0]));
 	asm volatile("movdqu %0, %%xmm1\n" ::"m"(ctx->xmm[1]));
@@ -212,4 +233,47 @@ void mcount_restore_arch_context(struct mcount_arch_context *ctx)
 	asm volatile("movdqu %0, %%xmm5\n" ::"m"(ctx->xmm[5]));
 	asm volatile("movdqu %0, %%xmm6\n" ::"m"(ctx->xmm[6]));
 	asm volatile("movdqu %0, %%xmm7\n" ::"m"(ctx->xmm[7]));
+}
+
+static void mcount_save_arch_context_avx(struct mcount_arch_context *ctx)
+{
+	asm volatile("vmovdqu %%ymm0, %0\n" : "=m"(ctx->xmm[0]));
+	asm volatile("vmovdqu %%ymm1, %0\n" : "=m"(ctx->xmm[1]));
+	asm volatile("vmovdqu %%ymm2, %0\n" : "=m"(ctx->xmm[2]));
+	asm volatile("vmovdqu %%ymm3, %0\n" : "=m"(ctx->xmm[3]));
+	asm volatile("vmovdqu %%ymm4, %0\n" : "=m"(ctx->xmm[4]));
+	asm volatile("vmovdqu %%ymm5, %0\n" : "=m"(ctx->xmm[5]));
+	asm volatile("vmovdqu %%ymm6, %0\n" : "=m"(ctx->xmm[6]));
+	asm volatile("vmovdqu %%ymm7, %0\n" : "=m"(ctx->xmm[7]));
+}
+
+static void mcount_restore_arch_context_avx(struct mcount_arch_context *ctx)
+{
+	asm volatile("vmovdqu %0, %%ymm0\n" ::"m"(ctx->xmm[0]));
+	asm volatile("vmovdqu %0, %%ymm1\n" ::"m"(ctx->xmm[1]));
+	asm volatile("vmovdqu %0, %%ymm2\n" ::"m"(ctx->xmm[2]));
+	asm volatile("vmovdqu %0, %%ymm3\n" ::"m"(ctx->xmm[3]));
+	asm volatile("vmovdqu %0, %%ymm4\n" ::"m"(ctx->xmm[4]));
+	asm volatile("vmovdqu %0, %%ymm5\n" ::"m"(ctx->xmm[5]));
+	asm volatile("vmovdqu %0, %%ymm6\n" ::"m"(ctx->xmm[6]));
+	asm volatile("vmovdqu %0, %%ymm7\n" ::"m"(ctx->xmm[7]));
+}
+
+void mcount_save_arch_context(struct mcount_arch_context *ctx)
+{
+	if (mcount_arch_have_avx < 0)
+		mcount_arch_have_avx = mcount_arch_check_avx();
+
+	if (mcount_arch_have_avx)
+		mcount_save_arch_context_avx(ctx);
+	else
+		mcount_save_arch_context_sse(ctx);
+}
+
+void mcount_restore_arch_context(struct mcount_arch_context *ctx)
+{
+	if (mcount_arch_have_avx > 0)
+		mcount_restore_arch_context_avx(ctx);
+	else
+		mcount_restore_arch_context_sse(ctx);
 }
